@@ -83,6 +83,17 @@ func init() {
 					}
 				}
 			}
+			// binary floating-point setters on the special values (and two finite values) from every previous receiver form
+			for which := 0; which <= 1; which++ {
+				for cls := 0; cls <= 6; cls++ {
+					if cls == 6 && which == 1 {
+						continue // a big.Float cannot hold a NaN
+					}
+					for zf := 0; zf <= 2; zf++ {
+						jobs = append(jobs, J("H_C04_setfloat", o, "cls", cls, "which", which, "zf", zf))
+					}
+				}
+			}
 			// no other panic: the finite paths of the arithmetic, setters and decoders under the panic obligation only
 			po := obl("C04.")
 			for op := 0; op <= 1; op++ {
@@ -191,7 +202,7 @@ func init() {
 	Register(&PropDef{
 		ID: "C10", Level: "model_checking", Contracts: "default", DesignRef: "DESIGN.md 5 (C10)",
 		Jobs: func(tier string) []*sym.Job {
-			o := obl("C01.", "C02.", "C03.", "C08.", "C09.prec", "C09.mode")
+			o := obl("C01.", "C02.", "C03.", "C08.", "C09.prec", "C09.mode", "C10.", "C04.special")
 			var jobs []*sym.Job
 			for op := 0; op <= 1; op++ {
 				for _, al := range []int{1, 2} {
@@ -211,6 +222,14 @@ func init() {
 			}
 			// real multi-word long division under aliasing: concrete extremal divisor (every product linear)
 			jobs = append(jobs, J("H_C01_quo", o, "wx", 1, "wy", 2, "p", 1, "ypat0", 4, "ypat1", 2, "alias", 2), J("H_C01_quo", o, "wx", 2, "wy", 2, "p", 1, "ypat0", 4, "ypat1", 2, "alias", 1))
+			// SetFloat / SetFloat64 do not depend on the receiver's previous form (concrete binary operand)
+			for which := 0; which <= 1; which++ {
+				for _, cls := range []int{1, 2, 4, 5} {
+					for zf := 0; zf <= 2; zf++ {
+						jobs = append(jobs, J("H_C04_setfloat", o, "cls", cls, "which", which, "zf", zf, "capx", 2))
+					}
+				}
+			}
 			jobs = append(jobs, J("H_C01_mul", o, "wx", 1, "wy", 1, "p", 19, "same", 1), J("H_C01_mul", o, "wx", 1, "wy", 1, "p", 19, "same", 1, "alias", 1),
 				J("H_C01_mul", o, "wx", 2, "wy", 2, "p", 38, "alias", 5, "zf", 1, "wz", 1, "capx", 5),
 				J("H_C03_fma", o, "d", 0, "p", 19, "alias", 1), J("H_C03_fma", o, "d", 0, "p", 5, "alias", 3), J("H_C03_fma", o, "d", 0, "p", 5, "alias", 5, "zf", 1, "capx", 2),
